@@ -17,6 +17,7 @@
 (*                    fragment, the next fragment only in reaction to the  *)
 (*                    matching confirm, nothing after a new request, a     *)
 (*                    timeout or a disconnect                              *)
+(*   no-progress      a non-final fragment that carries no object          *)
 (***************************************************************************)
 EXTENDS MonBase
 
@@ -76,7 +77,9 @@ SeriesFragment(m, x, e, l, first) ==
     LET sr == m.ser
         objs == StObjs(x)
         m1 == IF ~first /\ x.fir THEN V(m, "fir", l, "FIR on a later fragment of the series") ELSE m
-        m2 == IF ~x.fin /\ ~x.con THEN V(m1, "no-con", l, "non-final fragment without CON") ELSE m1
+        m2a == IF ~x.fin /\ ~x.con THEN V(m1, "no-con", l, "non-final fragment without CON") ELSE m1
+        \* an orderly series makes progress: a fragment that is not the last one carries something
+        m2 == IF ~x.fin /\ x.objs = <<>> THEN V(m2a, "no-progress", l, "empty non-final fragment") ELSE m2a
         m3 == IF HasEvents(x) /\ ~x.con THEN V(m2, "no-con", l, "event-bearing fragment without CON") ELSE m2
         \* the next fragment may only be sent in reaction to the confirm of the previous one
         m4 == IF ~first /\ ~(IsConfirm(e) /\ ~e.uns /\ e.seq = sr.awaitSeq)
